@@ -281,6 +281,8 @@ class FakeRepo:
         self.commit_log = []    # [(id, message, sorted(paths))]
         self.tag_log = []       # [(name, message|None, commit id)]
         self.push_log = []      # [argv tail]
+        self.remote_tags = set()   # tag names the remote has received through a push
+        self.remote_head = None    # commit the remote branch was last pushed to
         self.fetch_count = 0
         self.pending_remote_tags = []   # tags a colleague pushed: they arrive with the next successful fetch / pull
         self.moved_remote_tags = []     # tags that exist here and point somewhere else on the remote (a moved `latest`)
@@ -317,11 +319,15 @@ class FakeRepo:
     def _receive_remote_tags(self):
         """A fetch brings the remote's new commits and the tags that point at them; local branches do not move."""
         for t in self.pending_remote_tags:
+            cid = None
+            if isinstance(t, (list, tuple)):
+                t, cid = t      # the remote tagged a commit this clone already has (CI, a release manager)
             if t in self.tags:
                 continue
-            cid = _hexid(self.ncommits)
-            self.ncommits += 1
-            self.parents[cid] = [self.head_commit()]
+            if cid is None:
+                cid = _hexid(self.ncommits)
+                self.ncommits += 1
+                self.parents[cid] = [self.head_commit()]
             self.tags[t] = cid
         self.pending_remote_tags = []
 
@@ -482,6 +488,18 @@ class FakeRepo:
             if not self.remote:
                 return (128, b"", b"fatal: no remote\n")
             self.push_log.append(list(argv[2:]))
+            # what arrives: refs named on the command line; with --follow-tags also the *annotated* tags that point into the
+            # pushed history (git skips lightweight tags there); with --tags every tag
+            pos = [a for a in info.get("pos", []) if a in self.tags]
+            annotated = set(n for n, msg, _c in self.tag_log if msg)
+            anc = self.ancestors(self.head_commit())
+            if "HEAD" in info.get("pos", []) or self.head in info.get("pos", []) or len(info.get("pos", [])) <= 1:
+                self.remote_head = self.head_commit()
+            self.remote_tags |= set(pos)
+            if "--follow-tags" in info.get("opts", []):
+                self.remote_tags |= set(t for t in self.tags if t in annotated and self.tags[t] in anc)
+            if "--tags" in info.get("opts", []):
+                self.remote_tags |= set(self.tags)
             return (0, b"", b"")
         if role == "probe_remote":
             if self.remote:
@@ -530,6 +548,9 @@ class FakeRepo:
             if not self.remote:
                 return (255, b"", b"abort: repository default not found\n")
             self.push_log.append(list(argv[2:]))
+            # hg tags live in .hgtags, a tracked file: pushing the changesets pushes the tags
+            self.remote_tags |= set(self.tags)
+            self.remote_head = self.head_commit()
             return (0, b"", b"")
         if role == "probe_remote":
             if self.remote:
